@@ -39,6 +39,13 @@ CALLER_RE = X.UID_NAMES
 
 HEADER = X.HEADER + """
 From Splinkv Require Import Model.Catalog.
+Notation cop := (Catalog.cop K).
+Notation COp := (Catalog.COp K).
+Notation CRegisterTable := (Catalog.CRegisterTable K).
+Notation CRegisterByName := (Catalog.CRegisterByName K).
+Notation CHandleByName := (Catalog.CHandleByName K).
+Notation CDropTable := (Catalog.CDropTable K).
+Notation CRealtime := (Catalog.CRealtime K).
 Definition cat_eqb (a b : string * bool) := String.eqb (fst a) (fst b) && Bool.eqb (snd a) (snd b).
 Definition model_catalog (s : state K) : list (string * bool) :=
   map (fun x => match x with (n, h, _) => (n, h) end) (db_listing K s).
